@@ -811,6 +811,8 @@ def oracle_with(plan, tr, refs):
             expi = refs.get(keyi)
             if expi == 'step-budget-exceeded':
                 continue
+            if _both_fail_on_undefined(got, expi):
+                continue
             if got != expi:
                 clause = 'C08.r' if _uses_loaded(plan, tr, i) else 'C08.h'
                 out.append({'property': 'C08', 'clause': clause, 'op': op['op'],
@@ -819,6 +821,17 @@ def oracle_with(plan, tr, refs):
                 if op['op'] == 'decode':
                     bad_handles.add(i)
     return out
+
+
+def _both_fail_on_undefined(a, b):
+    """C08 quantifies over templates that are defined. Under a tables root that lacks the message's
+    table version the library falls back to another version, in which a descriptor of the template may
+    be undefined: the compiler then reports the unknown descriptor when it builds the template, the
+    interpreter only when (and if) it reaches it - both fail, with different errors. Outside the domain;
+    a failure on one side only is still reported."""
+    fa = isinstance(a, str) and a.startswith('raise:')
+    fb = isinstance(b, str) and b.startswith('raise:')
+    return fa and fb and 'raise:UnknownDescriptor' in (a, b)
 
 
 def _cls(r):
